@@ -242,9 +242,9 @@ def plan(tier, seed):
     else:
         for f in corpus.all_files():
             specs.append({"kind": "files", "files": [f]})
-        specs += [{"kind": "moved", "files": corpus.SMALL + corpus.MEDIUM[:5], "examples": 250, "seed": seed * 1000 + k} for k in range(16)]
-        specs += [{"kind": "mini", "files": corpus.SMALL + corpus.MEDIUM, "examples": 2500, "seed": seed * 1000 + 50 + k} for k in range(16)]
-        specs += [{"kind": "steered-hbond", "files": corpus.SMALL + corpus.MEDIUM, "examples": 1500, "seed": seed * 1000 + 300 + k} for k in range(16)]
+        specs += [{"kind": "moved", "files": corpus.SMALL + corpus.MEDIUM[:5], "examples": 500, "seed": seed * 1000 + k} for k in range(16)]
+        specs += [{"kind": "mini", "files": corpus.SMALL + corpus.MEDIUM, "examples": 6000, "seed": seed * 1000 + 50 + k} for k in range(16)]
+        specs += [{"kind": "steered-hbond", "files": corpus.SMALL + corpus.MEDIUM, "examples": 4000, "seed": seed * 1000 + 300 + k} for k in range(16)]
     return specs
 
 
